@@ -22,6 +22,9 @@ Definition m_dat {T} (f : T -> val) (d : datum T) : mval := MV (VDat (d_time d) 
 Definition m_opt {T} (f : T -> mval) (o : option T) : mval := match o with None => MNone | Some x => MSome (f x) end.
 Definition m_out {T} (f : T -> val) (o : out T) : mval :=
   match o with OErr e => MErr (MErrV e) | ONone => MOk MNone | OSome d => MOk (MSome (m_dat f d)) end.
+(* symbolic containers: the evaluator forks where the program inspects them (no case analysis in the proof script) *)
+Definition s_opt {T} (f : T -> mval) (o : option T) : mval := MOpt o f.
+Definition s_out {T} (f : T -> val) (o : out T) : mval := MOutS o (m_dat f).
 Definition m_tout (t : tout) : mval := match t with TErr e => MErr (MErrV e) | TOk t => MOk (m_t t) end.
 Definition m_upd (u : upd) : mval := match u with UOk => MOk MTup0 | UErr e => MErr (MErrV e) end.
 Definition m_kvals (k : @kvals F) : mval := MRec [("kd", m_f (kd k)); ("ki", m_f (ki k)); ("kp", m_f (kp k))].
@@ -173,12 +176,13 @@ Ltac split_inputs :=
 Lemma flatten_tmap {F} {NF : Num F} {X Y} (f : X -> @tree F Y) (t : @tree F X) :
   flatten (tmap f t) = match flatten t with Ok x => flatten (f x) | Panic => Panic end.
 Proof.
-  induction t as [x|A r k IH|b x IHx y IHy|A o ks IHs kn IHn|p k IH]; cbn [tmap flatten].
+  induction t as [x|A r k IH|b x IHx y IHy|A o ks IHs kn IHn|p k IH|T o ke IHe kn IHn ks IHs]; cbn [tmap flatten].
   - reflexivity.
   - destruct r; [apply IH|reflexivity].
   - destruct b; assumption.
   - destruct o; [apply IHs|apply IHn].
   - destruct p; apply IH.
+  - destruct o; [apply IHe|apply IHn|apply IHs].
 Qed.
 Lemma flatten_tbind {F} {NF : Num F} (t : tree (@outcome F)) k :
   flatten (tbind t k) = match flatten t with
@@ -248,18 +252,20 @@ Lemma flatten_let x a body en :
       after (flatten (eval c body ((x, v) :: en1))) (fun w en2 => Ok (ONorm w (skipn 1 en2)))).
 Proof.
   cbn [eval]. rewrite flatten_tbind. unfold after. destruct (flatten (eval c a en)) as [[v en1| | | |]|]; try reflexivity.
-  cbn [pmatch app List.length]. rewrite flatten_tbind. destruct (flatten (eval c body ((x, v) :: en1))) as [[]|]; reflexivity.
+  cbn [pmatch tmap]. cbn [app List.length]. rewrite flatten_tbind. destruct (flatten (eval c body ((x, v) :: en1))) as [[]|]; reflexivity.
 Qed.
 Lemma flatten_let_pat p a body en :
   flatten (eval c (ELet p a body) en)
   = after (flatten (eval c a en)) (fun v en1 =>
-      match pmatch c p v with
-      | Some bs => after (flatten (eval c body (List.app bs en1))) (fun w en2 => Ok (ONorm w (skipn (List.length bs) en2)))
-      | None => Ok OType
+      match flatten (pmatch c p v) with
+      | Ok (Some bs) => after (flatten (eval c body (List.app bs en1))) (fun w en2 => Ok (ONorm w (skipn (List.length bs) en2)))
+      | Ok None => Ok OType
+      | Panic => Panic
       end).
 Proof.
   cbn [eval]. rewrite flatten_tbind. unfold after. destruct (flatten (eval c a en)) as [[v en1| | | |]|]; try reflexivity.
-  destruct (pmatch c p v) as [bs|]; [|reflexivity].
+  rewrite flatten_tmap.
+  match goal with |- match ?t with _ => _ end = _ => change (flatten (pmatch c p v)) with t; destruct t as [[bs|]|] end; try reflexivity.
   rewrite flatten_tbind. destruct (flatten (eval c body (List.app bs en1))) as [[]|]; reflexivity.
 Qed.
 Lemma flatten_seq a b en :
